@@ -1,10 +1,10 @@
-\* exhaustive, tiny: 2 replicas, 1 transaction each, universe <= 4, behaviours of 6 steps
+\* thorough: universe <= 4 so multi-head collapses (ActMerge) occur in exhaustive histories
 SPECIFICATION Spec
 CONSTANTS
   MergeTag = 2
   Reps = {1, 2}
   Txns = {1}
-  MaxCmds = 3
+  MaxCmds = 4
   MaxSteps = 5
   Kinds = {"b0", "fin"}
   Ops = {"n"}
